@@ -528,7 +528,8 @@ pub fn enabled(c: &FuChecker, w: &World, pre: &FuObs, g: &FuGhost) -> Vec<FuOp> 
     let a = c.alpha;
     let cur = pre.cur;
     let users = [A, B];
-    let fee = &c.farm_fee;
+    let cur_fee: (String, u128) = pre.cfg.as_ref().map(|x| (x.create_farm_fee.denom.clone(), x.create_farm_fee.amount.u128())).unwrap_or(c.farm_fee.clone());
+    let fee = &cur_fee;
     // ---- time
     ops.push(FuOp::Advance { secs: DAY });
     if matches!(a, FAlpha::Full | FAlpha::Positions | FAlpha::Farms) {
@@ -734,6 +735,15 @@ pub fn enabled(c: &FuChecker, w: &World, pre: &FuObs, g: &FuGhost) -> Vec<FuOp> 
         let pen = pre.cfg.as_ref().map(|c| c.emergency_unlock_penalty).unwrap_or(Decimal::percent(10));
         ops.push(FuOp::SetPenalty { u: OWNER, pct: if pen == Decimal::percent(10) { 50 } else { 10 } });
         ops.push(FuOp::SetPenalty { u: A, pct: 0 });
+        // the owner changes the farm creation fee: zero, and into the reward denom
+        let f = pre.cfg.as_ref().map(|c| c.create_farm_fee.clone());
+        if f.as_ref().map_or(false, |f| !f.amount.is_zero()) {
+            ops.push(FuOp::SetFarmFee { u: OWNER, denom: "uom".into(), amt: 0 });
+            ops.push(FuOp::SetFarmFee { u: OWNER, denom: "uusdc".into(), amt: 0 });
+        } else {
+            ops.push(FuOp::SetFarmFee { u: OWNER, denom: "uusdc".into(), amt: 1000 });
+        }
+        ops.push(FuOp::SetFarmFee { u: B, denom: "uom".into(), amt: 0 });
     }
     ops
 }
